@@ -201,7 +201,8 @@ Fixpoint comment_unescape (t : bytes) : bytes :=
 
 (* ====================================================================== 2. CSV reader (RFC 4180) *)
 (* Records end at LF or CRLF; a field is either unquoted (no quote, comma, CR, LF inside) or quoted
-   with "" for a quote; every line is a record (an empty line is a record with one empty field);
+   with "" for a quote; every line is a record (an empty line is a record with one empty field — see
+   csv_read_skip below for readers that skip empty lines);
    a last record without line end is accepted.  [None] = not well-formed. *)
 Inductive csvstate := CsvStart | CsvUnq | CsvQ | CsvQQ.
 (* cur: current field reversed; rec: fields of the current record, reversed *)
@@ -242,6 +243,43 @@ Fixpoint csv_go (st : csvstate) (cur : bytes) (rec : list bytes) (t : bytes) : o
     end
   end.
 Definition csv_read (t : bytes) : option (list (list bytes)) := csv_go CsvStart [] [] t.
+
+(* Readers that SKIP empty lines (Go's encoding/csv Reader, and most "standard" readers, do not
+   return a record for an empty line).  An empty line is a line end (LF or CRLF) met where a record
+   would begin, i.e. outside a quoted field: line ends inside a quoted field belong to the field and
+   are kept by those readers.  [inq]: inside a quoted field (a doubled quote leaves and re-enters);
+   [fresh]: at the beginning of a line that is not inside a quoted field.
+   [csv_blank inq fresh t] = the text has such an empty line;
+   [csv_drop_blank inq fresh t] = the text without its empty lines;
+   [csv_read_skip] = the RFC 4180 reader above applied after the empty lines have been dropped. *)
+Fixpoint csv_blank (inq fresh : bool) (t : bytes) : bool :=
+  match t with
+  | [] => false
+  | c :: r =>
+    if inq then csv_blank (negb (beq c """"%byte)) false r
+    else if beq c x0a then fresh || csv_blank false true r
+    else if beq c x0d then
+      (fresh && match r with c2 :: _ => beq c2 x0a | [] => false end) || csv_blank false false r
+    else if beq c """"%byte then csv_blank true false r
+    else csv_blank false false r
+  end.
+Fixpoint csv_drop_blank (inq fresh : bool) (t : bytes) : bytes :=
+  match t with
+  | [] => []
+  | c :: r =>
+    if inq then c :: csv_drop_blank (negb (beq c """"%byte)) false r
+    else if beq c x0a then (if fresh then csv_drop_blank false true r else c :: csv_drop_blank false true r)
+    else if beq c x0d then
+      match r with
+      | c2 :: r2 => if fresh && beq c2 x0a then csv_drop_blank false true r2
+                    else c :: csv_drop_blank false false r
+      | [] => [c]
+      end
+    else if beq c """"%byte then c :: csv_drop_blank true false r
+    else c :: csv_drop_blank false false r
+  end.
+Definition csv_no_blank_line (t : bytes) : Prop := csv_blank false true t = false.
+Definition csv_read_skip (t : bytes) : option (list (list bytes)) := csv_read (csv_drop_blank false true t).
 
 (* ====================================================================== 3. JSON reader (RFC 8259) *)
 Inductive json :=
